@@ -20,6 +20,15 @@ def rs_wf(s):
             and all(s.ranges[i] <= s.ranges[j] for i in range(len(s.ranges)) for j in range(i + 1, len(s.ranges))))
 
 
+from pyvc.spec import heap_pred  # noqa: E402
+
+
+@heap_pred(reads=["ranges"])
+def rs_overlap(a, b):
+    """two range sets share a byte"""
+    return any(any(max(a.ranges[i][0], b.ranges[j][0]) < min(a.ranges[i][1], b.ranges[j][1]) for j in range(len(b.ranges))) for i in range(len(a.ranges)))
+
+
 contract(
     "ethosu.vela.range_set:RangeSet.intersects", props=["C04"],
     types=dict(self=RANGESET, other=RANGESET),
@@ -32,8 +41,9 @@ contract(
     ])},
     # exact: True iff some range of self shares a byte with some range of other
     ensures=["result == any(any(max(self.ranges[i][0], other.ranges[j][0]) < min(self.ranges[i][1], other.ranges[j][1])"
-             " for j in range(len(other.ranges))) for i in range(len(self.ranges)))"],
-    returns=PyBool,
+             " for j in range(len(other.ranges))) for i in range(len(self.ranges)))",
+             "result == rs_overlap(self, other)"],      # the same statement through the (here revealed) predicate, for callers
+    returns=PyBool, reveal=["rs_overlap"],
 )
 
 
@@ -66,3 +76,4 @@ contract(
     ],
     returns=RANGESET, allocates=True, inline=["ethosu.vela.range_set:RangeSet.__init__"],
 )
+
